@@ -4,7 +4,8 @@
    operation touches only its own handle's descriptors and pid (frame).  C-level data-race
    freedom under preemption is NOT provable here (partial): the tie adds a ThreadSanitizer run
    and a static scan for shared mutable globals. *)
-From Verif Require Import Lib WorldSpec LibSpec LibSpec2 ProofsMisc.
+From Verif Require Import Lib WorldSpec WorldSpec2 LibSpec LibSpec2 ProofsMisc ParentSpec FdSpec MultiSpec.
+Import Lib.
 From Coq Require Import Lia.
 Local Open Scope Z_scope.
 
@@ -57,3 +58,21 @@ Print Assumptions C20_frame_destroy.
 
 Example C20_ex : h_in (rp_with_in 9 (rp_new 1)) = 9 /\ h_out (rp_with_in 9 (rp_new 1)) = -1.
 Proof. split; reflexivity. Qed.
+
+(* HANDLES ARE INDEPENDENT IN THE DESCRIPTOR TABLE, EVERY FAULT PLAN: with any number of live
+   handles (each in any state of its life: invariant MI), a call on one of them -- start, read,
+   write, close, poll, wait, terminate, kill, stop -- leaves every descriptor owned by every OTHER
+   live handle exactly as it was: same number, same object, same flags, still open.  (And the
+   caller's own descriptors: C05.)  The handle operated on shares no descriptor with the others
+   before or after the call (the owned sets are pairwise disjoint: part of MI). *)
+Theorem C20_call_leaves_other_handles_descriptors : forall T c (ck : rp -> MW unit) l1 p l2 op w p' w',
+  MI T c (l1 ++ p :: l2) w -> (forall q, kp c (ck q)) ->
+  run_hop ck p op w = Ret p' w' ->
+  forall fd, In fd (POWNS (l1 ++ l2)) -> pr_fds (curp w') !! fd = pr_fds (curp w) !! fd.
+Proof. exact call_leaves_other_handles_untouched. Qed.
+Print Assumptions C20_call_leaves_other_handles_descriptors.
+Theorem C20_invariant_kept_by_every_call : forall T c (ck : rp -> MW unit) l1 p l2 op w p' w',
+  MI T c (l1 ++ p :: l2) w -> (forall q, kp c (ck q)) ->
+  run_hop ck p op w = Ret p' w' -> MI T c (l1 ++ p' :: l2) w'.
+Proof. exact MI_call. Qed.
+Print Assumptions C20_invariant_kept_by_every_call.
